@@ -295,10 +295,31 @@ def fam_density(rec, rng, R, D, info):
                            else o["p"].condition_on_explicit(JI([0]), JI([1]))))
         for c in cs:
             run_case(rec, rng, c, R, info)
+        # objects derived from p are independent of it: updating them in place leaves p unchanged
+        for dname, mk_derived in (("slice", lambda: p.slice(JI(np.arange(R)))),
+                                  ("get_density", lambda: p.get_density())):
+            snap = params_of(p)
+            try:
+                dd = mk_derived()
+                d1, _ = build.mk_pdf(rng, 1, D, kappa=10.0, diag=diag)
+                dd.update(JI([0]), d1)
+                dd.normalize()
+                after = params_of(p)
+                rec.cell([f"{tag}.{dname}+update leaves source", R, D], R > 1)
+                for name in snap:
+                    rec.close(f"source unchanged after update of its {dname}: {name}", after[name],
+                              snap[name], exact=True, detail=dict(info, derived=dname),
+                              mech=f"aliasing:{tag}.{dname}")
+            except Exception as e:
+                rec.evaluations += 1
+                rec.fail(f"raises:aliasing:{dname}:{type(e).__name__}@{core.exc_site(e)}",
+                         dict(info, exc=core.exc_info(e)))
         # update(idx, d) replaces exactly the addressed components
         cls = L.pdf.GaussianDiagPDF if diag else L.pdf.GaussianPDF
         k = int(rng.integers(1, R + 1))
         uidx = rng.permutation(R)[:k]
+        if rng.integers(0, 2):
+            uidx = uidx - R  # negative indices address the same rows
         d, td = build.mk_pdf(rng, k, D, kappa=10.0, diag=diag)
         pu = cls(Sigma=J(t.Sigma), mu=J(t.mu))
         before = params_of(pu)
@@ -310,12 +331,12 @@ def fam_density(rec, rng, R, D, info):
             newp = params_of(d)
             for name in before:
                 exp = before[name].copy()
-                exp[uidx] = newp[name]
+                exp[uidx % R] = newp[name]
                 rec.close(f"update: {name}", after[name], exp, ns=1.0 + np.max(np.abs(exp)),
                           exact=True, detail=inf, mech=f"update-exact-rows:{tag}")
             x = J(gen.points(rng, 3, t.mu, t.Sigma))
             mu2, S2 = t.mu.copy(), t.Sigma.copy()
-            mu2[uidx], S2[uidx] = td.mu, td.Sigma
+            mu2[uidx % R], S2[uidx % R] = td.mu, td.Sigma
             rec.close("update: function", pu.evaluate_ln(x), orc.mvn_logpdf(np.asarray(x), mu2, S2),
                       ns=orc.mvn_logpdf_abs(np.asarray(x), mu2, S2), detail=inf,
                       mech=f"update-function:{tag}")
